@@ -7,7 +7,10 @@ ALL = [f"C{n:02d}" for n in range(1, 21)]
 props = {json.loads(l)["id"]: json.loads(l) for l in open(os.path.join(V, "properties.jsonl"))}
 
 # id -> (category, technique, text, note, design_ref)
-CLAIMS = json.load(open(os.path.join(V, "tools", "claims.json")))
+CLAIMS = {}
+for f in sorted(os.listdir(os.path.join(V, "tools", "claims"))):
+    if f.endswith(".json"):
+        CLAIMS[f[:-5]] = json.load(open(os.path.join(V, "tools", "claims", f)))
 
 hooks_commits = subprocess.run(["git", "-C", "/repo", "log", "--format=%h %s"], capture_output=True,
                                text=True).stdout.splitlines()
